@@ -9,6 +9,9 @@ of every stateless leaf, (3) all wires equal a twin built in dataflow order whos
 """
 import random
 
+import py4hw
+import py4hw.simulation
+
 from ..core import Violation, shrink_list, h64
 from .. import seams, netlist
 from ..catalog import KINDS, kinds_with
@@ -37,7 +40,7 @@ REAL = ['py4hw.simulation.Simulator (topologicalSort, propagateAll, clk)', 'py4h
 STUB = ['stimulus (wire.put between clk calls)']
 ASSUMPTIONS = ['reference models in dsim/catalog.py state the documented function of each block',
                'netlists up to ~150 leaves / chains up to 900 deep (thorough); widths up to 70']
-PROBES = ['settled_by_clk0', 'gated_top_driver', 'simulator_before_cycle_closed', 'const_update', 'stop_cancel', 'sorter_needed_repair', 'cyclic_refused', 'reg_cycle_accepted', 'late_add', 'antidataflow_block']
+PROBES = ['wires_renamed_before_sort', 'simulator_through_constructor', 'settled_by_clk0', 'gated_top_driver', 'simulator_before_cycle_closed', 'const_update', 'stop_cancel', 'sorter_needed_repair', 'cyclic_refused', 'reg_cycle_accepted', 'late_add', 'antidataflow_block']
 
 STATEFUL_LEAVES = {'Latch', 'AsynchronousMemory', 'BidirBuf'}
 
@@ -47,6 +50,7 @@ def gen(rs, tier, index):
     mode = rng.random()
     comb = kinds_with(seq=False, exclude=('rot',)) + kinds_with(tag='rot') + (kinds_with(tag='big') if tier == 'thorough' or rng.random() < 0.15 else [])
     comb = comb + kinds_with(tag='ifaceport')        # user primitive with interface-declared ports
+    comb = comb + kinds_with(tag='perinst')          # one class, structural or behavioural per instance (method bound to the object)
     seqk = [KINDS[k] for k in ('Reg', 'Counter', 'DelayLine', 'TReg')]
     scn = {'mode': 'acyclic'}
     if mode < 0.12:
@@ -77,6 +81,10 @@ def gen(rs, tier, index):
     fr = rs.get('faults')
     scn['late'] = fr.randint(1, max(1, len(order) - 1)) if (fr.random() < 0.25 and len(order) > 1) else None
     scn['perm'] = rs.sub('perm') if fr.random() < 0.4 else None
+    # wires of the connected netlist are renamed / moved through the public Wire API before the simulator is asked for
+    scn['rename'] = rs.sub('rename') if fr.random() < 0.2 else None
+    # the simulator is obtained through its public constructor (as test/interactive/tb_Bits.py does) instead of getSimulator()
+    scn['ctor'] = fr.random() < 0.2
     sr = rs.get('stimulus')
     steps = []
     prev = None
@@ -189,6 +197,23 @@ def run(scn, log, st):
         st.probe('antidataflow_block')
     if scn.get('perm') is not None:
         seams.perm_children(b.hw, random.Random(scn['perm']), st)
+    if scn.get('rename') is not None:
+        rr = random.Random(scn['rename'])
+        k = 0
+        for r_, w in sorted(b.wires.items()):
+            if rr.random() < 0.5:
+                continue
+            k += 1
+            if w.parent is b.hw or rr.random() < 0.6:
+                w.rename('rn%d_%s' % (k, w.name))
+            else:
+                w.reparentAndRename(b.hw, 'mv%d_%s' % (k, w.name))
+        if k:
+            st.fault('wire_rename', k)
+            st.probe('wires_renamed_before_sort')
+    get_sim = (lambda: py4hw.simulation.Simulator(b.hw)) if scn.get('ctor') else b.hw.getSimulator
+    if scn.get('ctor'):
+        st.probe('simulator_through_constructor')
     if scn['mode'] == 'cyclic':
         if late is not None:
             # a simulator may already exist when the blocks that close the loop are added
@@ -203,7 +228,7 @@ def run(scn, log, st):
             # the refusal must be repeatable: asking again (a retry after the error) must not hand out a simulator
             try:
                 with quiet():
-                    sim = b.hw.getSimulator()
+                    sim = get_sim()
             except Exception as e:
                 st.probe('cyclic_refused')
                 st.nontrivial = True
@@ -217,7 +242,7 @@ def run(scn, log, st):
         st.nontrivial = True
     try:
         with quiet():
-            sim = b.hw.getSimulator()
+            sim = get_sim()
     except Exception as e:
         raise Violation('acyclic-refused', 'acyclic-refused:%s' % str(e)[:30], 0,
                         'acyclic netlist refused: %r (nodes=%d)' % (e, len(d['nodes'])))
@@ -301,6 +326,10 @@ def shrink(scn):
         c = dict(scn)
         c['perm'] = None
         yield c
+    if scn.get('rename') is not None:
+        yield dict(scn, rename=None)
+    if scn.get('ctor'):
+        yield dict(scn, ctor=False)
     if any(s['faults'] for s in scn['steps']):
         c = dict(scn)
         c['steps'] = [dict(s, faults=[]) for s in scn['steps']]
